@@ -258,7 +258,7 @@ Qed.
 Lemma R_pop : forall s s2, tbs s -> tbs s2 -> tl (l_bufs s2) = l_bufs s -> R s (scan_end s2).
 Proof.
   intros s s2 (A1 & B1 & C1 & D1) (A2 & B2 & C2 & D2) H. unfold R, scan_end. cbn [l_sc l_rderr l_inc l_bufs l_q].
-  rewrite H, A1, A2, B1, B2. refine (conj _ (conj _ (conj _ (conj _ (conj _ _))))); auto.
+  rewrite H, A1, B1, B2. refine (conj _ (conj _ (conj _ (conj _ (conj _ _))))); auto.
   split; [exact D1|]. split; [apply q_inv_empty|]. intros K; contradiction K; reflexivity.
 Qed.
 
